@@ -327,6 +327,10 @@ func engEventSeqFrom(depth int, withClone, withForeign, presub bool) vsched.Inst
 			pids = append(pids, actor.NewPID("10.0.0.7:4000", pa.ID))
 			names = append(names, "pf")
 			keys = append(keys, "f")
+			// and one whose id no local actor has
+			pids = append(pids, actor.NewPID("10.0.0.8:4000", "elsewhere/1"))
+			names = append(names, "pg")
+			keys = append(keys, "g")
 		}
 		want = map[string][]int{}
 		n := 1 + vsched.Choose(depth)
@@ -338,7 +342,7 @@ func engEventSeqFrom(depth int, withClone, withForeign, presub bool) vsched.Inst
 				ev++
 				seq = append(seq, fmt.Sprintf("bcast(%d)", ev))
 				k.E.BroadcastEvent(evtMsg{ev})
-				for _, nm := range []string{"a", "b"} {
+				for _, nm := range []string{"a", "b", "f", "g"} {
 					if member[nm] {
 						want[nm] = append(want[nm], ev)
 					}
@@ -380,6 +384,28 @@ func engEventSeqFrom(depth int, withClone, withForeign, presub bool) vsched.Inst
 					sig = "eventstream/missing-delivery"
 				}
 				vs = append(vs, V(sig, "history %v: subscriber %s received %v, want %v", seq, nm, got, want[nm]))
+			}
+		}
+		if withForeign {
+			// what was forwarded to the subscriber on the other node shows as one EngineRemoteMissingEvent each
+			// (this engine has no remote): exactly the events broadcast while it was subscribed
+			for key, addr := range map[string]string{"f": "10.0.0.7:4000", "g": "10.0.0.8:4000"} {
+				var got []int
+				for _, e := range k.Log {
+					if rm, ok := e.Raw.(actor.EngineRemoteMissingEvent); ok && e.Kind == "event" && rm.Target != nil && rm.Target.Address == addr {
+						if m, ok := rm.Message.(evtMsg); ok {
+							got = append(got, m.N)
+						}
+					}
+				}
+				sort.Ints(got)
+				if fmt.Sprint(got) != fmt.Sprint(append([]int{}, want[key]...)) {
+					sig := "eventstream/missing-delivery"
+					if len(got) > len(want[key]) {
+						sig = "eventstream/delivery-to-non-subscriber"
+					}
+					vs = append(vs, V(sig, "history %v: events forwarded to the subscriber on node %s %v, want %v", seq, addr, got, want[key]))
+				}
 			}
 		}
 		return vs
@@ -492,11 +518,25 @@ func engEventDyingSubscriber() vsched.Instance {
 		k.E.BroadcastEvent(evtMsg{1})
 		k.E.BroadcastEvent(evtMsg{2})
 		vsched.Quiesce()
+		// an actor with the same kind and id is spawned again and subscribes: a new subscription
+		nb := k.E.Spawn(k.Producer("b2", nil), "sub", actor.WithID("b"))
+		k.E.Subscribe(nb)
+		k.E.BroadcastEvent(evtMsg{3})
+		vsched.Quiesce()
 	}
 	check := func(r *vsched.Result) []vsched.Violation {
 		vs := stdEnd(r)
 		if len(vs) > 0 {
 			return vs
+		}
+		var gotB2 []int
+		for _, e := range k.Recv("b2") {
+			if m, ok := e.Raw.(evtMsg); ok {
+				gotB2 = append(gotB2, m.N)
+			}
+		}
+		if fmt.Sprint(gotB2) != "[3]" {
+			vs = append(vs, V("eventstream/resubscribed-actor-misses-events", "subscription order %v: sub/b stopped without unsubscribing, an actor with the same id was spawned and subscribed, then event 3 was broadcast: it received %v, want [3]", order, gotB2))
 		}
 		for _, nm := range []string{"a", "c"} {
 			var got []string
@@ -508,7 +548,7 @@ func engEventDyingSubscriber() vsched.Instance {
 					got = append(got, "stopped:"+m.PID.ID)
 				}
 			}
-			if want := "[stopped:sub/b e1 e2]"; fmt.Sprint(got) != want {
+			if want := "[stopped:sub/b e1 e2 e3]"; fmt.Sprint(got) != want {
 				vs = append(vs, V("eventstream/live-subscriber-misses-or-repeats-an-event", "subscription order %v, b stopped without unsubscribing: subscriber %s received %v, want %s", order, nm, got, want))
 			}
 		}
